@@ -198,8 +198,6 @@ impl PartialEq for Variable {
     }
 }
 
-impl Eq for Variable {}
-
 #[doc(hidden)]
 impl TryFrom<Pair<'_, Rule>> for Variable {
     type Error = Error;
